@@ -19,7 +19,8 @@ pub fn run(o: &Opts) -> Res<()> {
             let ro = o.get("ro") == Some("1");
             let nq = o.num("nq", 400);
             let fat = o.num("fat", 0);
-            run_scenario(&out, seed, move |net| server(net, seed, v6, ro, nq, fat))?
+            let renew = o.num("renew", 0);
+            run_scenario(&out, seed, move |net| server(net, seed, v6, ro, nq, fat, renew))?
         }
         "lookup" => {
             let kind = o.get("kind").unwrap_or("coop").to_owned();
@@ -104,7 +105,7 @@ fn rand_tid(rng: &mut StdRng) -> Vec<u8> {
 
 /// Server fuzz (C05 C06 C07 C09 C12 C17): one node with a populated table is sent queries of every kind and argument
 /// combination from several source addresses, interleaved with non-query traffic and passage of time.
-async fn server(net: Net, seed: u64, v6net: bool, read_only: bool, nq: u64, fat: u64) {
+async fn server(net: Net, seed: u64, v6net: bool, read_only: bool, nq: u64, fat: u64, renew: u64) {
     let mut rng = StdRng::seed_from_u64(seed);
     let my_id = rand_id(&mut rng);
     let mut nodes = oracle_universe(&mut rng, if v6net { 60 } else { 100 }, v6net, Some(my_id));
@@ -184,7 +185,11 @@ async fn server(net: Net, seed: u64, v6net: bool, read_only: bool, nq: u64, fat:
                 let known = seen.lock().unwrap().clone();
                 let mine: Vec<&(SocketAddr, Vec<u8>)> = known.iter().filter(|(a, _)| a.ip() == src.ip()).collect();
                 let other: Vec<&(SocketAddr, Vec<u8>)> = known.iter().filter(|(a, _)| a.ip() != src.ip()).collect();
-                let tok: Vec<u8> = match rng.gen_range(0..10) {
+                let tok: Vec<u8> = match rng.gen_range(0..13) {
+                    // a genuine token of the wrong length: one byte appended, the last byte cut off, written twice
+                    10 if !mine.is_empty() => { let mut t = mine[mine.len() - 1].1.clone(); t.push(rng.gen()); t }
+                    11 if !mine.is_empty() => { let mut t = mine[mine.len() - 1].1.clone(); t.pop(); t }
+                    12 if !mine.is_empty() => { let t = mine[mine.len() - 1].1.clone(); [t.clone(), t].concat() }
                     0..=4 if !mine.is_empty() => mine[mine.len() - 1].1.clone(),
                     5 if !mine.is_empty() => mine[rng.gen_range(0..mine.len())].1.clone(),
                     6 if !other.is_empty() => other[rng.gen_range(0..other.len())].1.clone(),
@@ -245,6 +250,39 @@ async fn server(net: Net, seed: u64, v6net: bool, read_only: bool, nq: u64, fat:
                 }
                 sleep_ms(50).await;
             }
+        }
+    }
+    // capacity and renewals: one requester re-announces the same pair `renew` times (the store holds ONE more pair, however often
+    // it is renewed), then new pairs are announced by it and by others: each must be acknowledged while fewer than 500 pairs are
+    // held, and refused with 202 from the 501st on; a renewal of a stored pair still succeeds then
+    if renew > 0 {
+        let r = reqs[2];
+        let ih_r = rand_id(&mut rng);
+        let latest = |seen: &Arc<Mutex<Vec<(SocketAddr, Vec<u8>)>>>, a: SocketAddr| seen.lock().unwrap().iter().rev().find(|(x, _)| *x == a).map(|(_, t)| t.clone());
+        net.inject(r, me, benc::q_get_peers(b"rn0", &rand_id(&mut rng), &ih_r, None), 0);
+        sleep_ms(400).await;
+        if let Some(tok) = latest(&seen, r) {
+            for i in 0..renew {
+                net.inject(r, me, benc::q_announce(&[7, (i >> 8) as u8, i as u8], &rand_id(&mut rng), &ih_r, &tok, None, None), 0);
+                if i % 64 == 63 { sleep_ms(20).await; }
+            }
+            sleep_ms(400).await;
+            // new pairs after the renewals
+            for k in 0..3u8 {
+                let ih_n = rand_id(&mut rng);
+                net.inject(r, me, benc::q_announce(&[8, k], &rand_id(&mut rng), &ih_n, &tok, Some(4000 + k as u16), None), 0);
+            }
+            sleep_ms(400).await;
+            // now really fill the store: distinct pairs (one requester, many info-hashes) until well past 500
+            for i in 0..560u32 {
+                let ih_n = rand_id(&mut rng);
+                net.inject(r, me, benc::q_announce(&[9, (i >> 8) as u8, i as u8], &rand_id(&mut rng), &ih_n, &tok, None, None), 0);
+                if i % 64 == 63 { sleep_ms(20).await; }
+            }
+            sleep_ms(400).await;
+            // a renewal in the full store, and a get_peers for the renewed pair
+            net.inject(r, me, benc::q_announce(b"rn1", &rand_id(&mut rng), &ih_r, &tok, None, None), 0);
+            net.inject(reqs[0], me, benc::q_get_peers(b"rn2", &rand_id(&mut rng), &ih_r, None), 0);
         }
     }
     sleep_ms(3000).await;
